@@ -409,8 +409,14 @@ func genCase(r *vh.Rand, o genOpts) Case {
 			inputs = []string{f}
 			outFlag(filepath.Dir(f) + "/")
 		case 1:
-			inputs = []string{stylePath(r, f)}
-			outFlag(stylePath(r, f))
+			sp := stylePath(r, f) // the same spelling on both sides (different spellings are the K41 condition)
+			if !o.known || r.Bool() {
+				inputs = []string{sp}
+				outFlag(sp)
+			} else {
+				inputs = []string{stylePath(r, f)}
+				outFlag(stylePath(r, f))
+			}
 		default:
 			inputs = []string{f}
 			outFlag(f)
@@ -442,8 +448,8 @@ func genCase(r *vh.Rand, o genOpts) Case {
 		}
 		switch r.Intn(5) {
 		case 0: // stdout
-		case 1: // onto one of the inputs
-			outFlag(fs[r.Intn(len(fs))])
+		case 1: // onto one of the inputs, spelled the same way (another spelling is the K41 condition)
+			outFlag(inputs[r.Intn(len(inputs))])
 		default:
 			outFlag(r.Pick("bundle", "out/all", "dist/b.min") + filepath.Ext(fs[0]))
 		}
@@ -562,7 +568,11 @@ func genCase(r *vh.Rand, o genOpts) Case {
 		case 3:
 			addOpt("--exclude", "**/*."+r.Pick("js", "css", "html"), "--include", "**/"+r.Pick("a", "b", "main", "index")+".*")
 		case 4:
-			addOpt("--match", "~^[a-m].*\\.(js|css)$")
+			if o.known {
+				addOpt("--match", "~^[a-m].*\\.(js|css)$") // N05
+			} else {
+				addOpt("--match", "a*.js", "*.css")
+			}
 		default:
 			addOpt("--exclude", "**", "--include", "**/*."+r.Pick("js", "json", "xml"))
 		}
@@ -598,7 +608,13 @@ func genCase(r *vh.Rand, o genOpts) Case {
 			addOpt("--ext", "{scss:css", "xjs:js}")
 		}
 	}
-	if len(inputs) > 0 && inputs[0] != "-" && r.Chance(20, 100) {
+	hasOut := false
+	for _, g := range opts {
+		if strings.HasPrefix(g[0], "-o") || strings.HasPrefix(g[0], "--output") {
+			hasOut = true
+		}
+	}
+	if len(inputs) > 0 && inputs[0] != "-" && (hasOut || r.Chance(1, 10)) && r.Chance(20, 100) {
 		v := r.Pick("mode", "timestamps", "links", "all", "mode,timestamps", "mode,links", "ownership")
 		switch r.Intn(4) {
 		case 0:
